@@ -1,5 +1,5 @@
-(* C07_Proofs.v — the cache state machine: coherence invariant over all histories (repaired tree),
-   refutation witnesses for the pinned behaviour and for the np.allclose window, legitimate reuse. *)
+(* C07_Proofs.v — the cache state machine: coherence invariant over all histories (current tree: the three repair
+   commits), refutation witnesses for the earlier trees and for the np.allclose window, legitimate reuse. *)
 From Coq Require Import List Bool Arith Lia ZArith.
 From GS Require Import Num Loops C07_Model.
 Import ListNotations.
@@ -15,107 +15,138 @@ Proof.
   intros H. unfold add_name. destruct (has m l); [exact H|].
   unfold has in *. rewrite existsb_app, H. reflexivity.
 Qed.
-Lemma has_nil n : has n [] = false.
-Proof. reflexivity. Qed.
+Lemma has_add_inv n m l : n <> m -> has n (add_name m l) = has n l.
+Proof.
+  intros H. unfold add_name. destruct (has m l); [reflexivity|].
+  unfold has. rewrite existsb_app. simpl. destruct (Nat.eqb_spec n m); [contradiction|]. now rewrite !orb_false_r.
+Qed.
 
-(* ---------- the invariant *)
+(* positions with jit 0: _pos_equal means identical *)
+Lemma close_eq a b : p_jit a = 0 -> p_jit b = 0 -> pos_close a b = true -> a = b.
+Proof.
+  destruct a as [ba ja], b as [bb jb]. unfold pos_close. simpl. intros -> -> H.
+  apply Nat.eqb_eq in H. now subst.
+Qed.
+
+(* the settings part of a descriptor *)
+Definition settings (d : KDesc) := (k_cond d, k_matmodel d, k_model d, k_mtn d).
+
+(* ---------- the invariant of the current tree *)
 Definition Inv (s : St) : Prop :=
-  st_matmodel s < st_next s /\ st_model s < st_next s /\
-  (refreshed s -> has 2 (st_cnames s) = true -> has 1 (st_knames s) = true ->
-   st_rk s = cur_desc s /\ st_kv s = cur_desc s).
+  st_matmodel s < st_next s /\ st_model s < st_next s /\ st_kvid s < st_next s /\
+  (forall id m rp, st_ref s = Some (id, m, rp) -> id < st_next s /\ p_jit rp = 0) /\
+  (forall q, st_pos s = Some q -> p_jit q = 0) /\
+  p_jit (k_pos (st_kv s)) = 0 /\
+  (* the stored kriging variance was computed from the current settings *)
+  (refreshed s -> has 1 (st_knames s) = true -> settings (st_kv s) = settings (cur_desc s)) /\
+  (* if the stored krige_var is the object remembered with raw_krige, both stem from one kriging run *)
+  (forall id m rp, has 2 (st_cnames s) = true -> has 1 (st_knames s) = true -> st_ref s = Some (id, m, rp) ->
+     st_kvid s = id -> st_rk s = st_kv s /\ k_pos (st_kv s) = rp /\ k_mesh (st_kv s) = m).
 
 Lemma Inv_init sd : Inv (init sd).
-Proof. unfold Inv, init; simpl. repeat split; try lia; discriminate. Qed.
+Proof. unfold Inv, init; simpl. repeat split; try lia; try discriminate; intros; discriminate. Qed.
 
-Lemma cur_desc_with_seed s x : cur_desc (with_seed s x) = cur_desc s.
-Proof. reflexivity. Qed.
+Ltac inv_tac :=
+  repeat match goal with
+         | |- _ /\ _ => split
+         | |- forall _, _ => intro
+         end; simpl in *; try lia; try discriminate; try congruence; eauto.
 
 Lemma Inv_with_seed s x : Inv s -> Inv (with_seed s x).
 Proof. intros H. exact H. Qed.
 
-(* set_pos on a clean position: either everything stored is deleted, or position and mesh type are unchanged *)
-Lemma set_pos_cases s q m :
-  (forall c, st_pos s = Some c -> pos_close c q = true -> c = q) ->
-  let '(s2, del) := do_set_pos s q m in
-  (del = true /\ st_cnames s2 = [] /\ st_knames s2 = []) \/
-  (del = false /\ st_pos s = Some q /\ st_mesh s = m /\ st_cnames s2 = st_cnames s /\ st_knames s2 = st_knames s).
+Lemma Inv_with_pos s q : p_jit q = 0 -> Inv s -> Inv (with_pos s q).
 Proof.
-  intros Hc. unfold do_set_pos.
-  destruct (negb (eqb (st_mesh s) m) || negb match st_pos s with Some q0 => pos_close q0 q | None => false end) eqn:D.
-  - left. simpl. auto.
-  - right. simpl. apply orb_false_elim in D. destruct D as [D1 D2].
-    apply negb_false_iff in D1, D2. apply eqb_prop in D1.
-    destruct (st_pos s) as [c|] eqn:P; [|discriminate].
-    rewrite (Hc c eq_refl D2). auto.
+  intros Hq (B1 & B2 & B3 & R & P & J & K & T).
+  split; [exact B1|split; [exact B2|split; [exact B3|split; [exact R|split; [|split; [exact J|split; [exact K|exact T]]]]]]].
+  intros q0 E. simpl in E. injection E as <-. exact Hq.
 Qed.
 
-Lemma set_pos_fields s q m :
-  let s2 := fst (do_set_pos s q m) in
-  st_pos s2 = Some q /\ st_mesh s2 = m /\ st_rk s2 = st_rk s /\ st_kv s2 = st_kv s /\ st_cond s2 = st_cond s /\
-  st_model s2 = st_model s /\ st_matmodel s2 = st_matmodel s /\ st_mtn s2 = st_mtn s /\ st_next s2 = st_next s /\
-  st_seed s2 = st_seed s.
-Proof. unfold do_set_pos. simpl. repeat split. Qed.
-
-Lemma Inv_set_pos s q m :
-  (forall c, st_pos s = Some c -> pos_close c q = true -> c = q) -> Inv s -> Inv (fst (do_set_pos s q m)).
+Lemma Inv_set_pos s q m : p_jit q = 0 -> Inv s -> Inv (fst (do_set_pos s q m)).
 Proof.
-  intros Hc (B1 & B2 & I). pose proof (set_pos_cases s q m Hc) as C.
-  pose proof (set_pos_fields s q m) as F. destruct (do_set_pos s q m) as [s2 del]. simpl in *.
-  destruct F as (F1 & F2 & F3 & F4 & F5 & F6 & F7 & F8 & F9 & F10).
-  unfold Inv, refreshed. rewrite F7, F6, F9. repeat split; auto.
-  - destruct C as [(_ & C1 & _)|(_ & P & M & C1 & C2)]; [rewrite C1 in H0; discriminate|].
-    rewrite C1 in H0. rewrite C2 in H1. destruct (I H H0 H1) as [E _]. rewrite F3, E.
-    unfold cur_desc, cur_pos. now rewrite F1, F2, F5, F6, F7, F8, P, M.
-  - destruct C as [(_ & C1 & _)|(_ & P & M & C1 & C2)]; [rewrite C1 in H0; discriminate|].
-    rewrite C1 in H0. rewrite C2 in H1. destruct (I H H0 H1) as [_ E]. rewrite F4, E.
-    unfold cur_desc, cur_pos. now rewrite F1, F2, F5, F6, F7, F8, P, M.
+  intros Hq (B1 & B2 & B3 & R & P & J & K & T). unfold do_set_pos. simpl.
+  split; [exact B1|split; [exact B2|split; [exact B3|split; [exact R|split; [|split; [exact J|]]]]]].
+  - intros q0 E. simpl in E. injection E as <-. exact Hq.
+  - destruct (pos_changed s q m); simpl.
+    + split; [intros _ E; discriminate E|intros id m0 rp E; discriminate E].
+    + split; [exact K|exact T].
 Qed.
 
-(* the part of CondSRF.__call__ after pre_pos, as a function of the state after pre_pos *)
-Definition finish_call (s2 : St) (del : bool) : St * Res :=
-  let reuse := negb del && has 2 (st_cnames s2) && has 1 (st_knames s2) in
-  let cur := cur_desc s2 in
-  let k := if reuse then st_rk s2 else cur in
-  let v := if reuse then st_kv s2 else cur in
-  let kn := add_name 0 (if reuse then st_knames s2 else add_name 1 (st_knames s2)) in
-  let cn := add_name 0 (add_name 1 (if reuse then st_cnames s2 else add_name 2 (st_cnames s2))) in
-  (mkSt (st_pos s2) (st_mesh s2) cn kn k v (st_cond s2) (st_model s2) (st_matmodel s2) (st_mtn s2)
-        (st_next s2) (st_seed s2),
-   RField (mkOut reuse k v (st_model s2) (st_seed s2) (st_mtn s2))).
-
-Lemma do_call_unfold s p sd :
-  do_call s p sd =
-  let s1 := match sd with Some x => with_seed s x | None => s end in
-  match p with
-  | None => match st_pos s1 with None => (s1, RErr) | Some _ => finish_call s1 false end
-  | Some (q, m) => let '(s2, del) := do_set_pos s1 q m in finish_call s2 del
-  end.
+Lemma Inv_krige_set_pos s q m : p_jit q = 0 -> Inv s -> Inv (krige_set_pos s q m).
 Proof.
-  unfold do_call, finish_call. cbv zeta. destruct p as [[q m]|].
-  - destruct (do_set_pos _ q m). reflexivity.
-  - set (s1 := match sd with Some x => with_seed s x | None => s end).
-    destruct (st_pos s1) eqn:P; [rewrite <- P|]; reflexivity.
+  intros Hq (B1 & B2 & B3 & R & P & J & K & T). unfold krige_set_pos.
+  split; [exact B1|split; [exact B2|split; [exact B3|split; [exact R|split; [|split; [exact J|]]]]]].
+  - intros q0 E. simpl in E. injection E as <-. exact Hq.
+  - destruct (pos_changed s q m); simpl.
+    + split; [intros _ E; discriminate E|intros id m0 rp _ E; discriminate E].
+    + split; [exact K|exact T].
+Qed.
+
+(* what the reuse decision of the current tree guarantees *)
+Lemma reuse_current s2 del :
+  Inv s2 -> refreshed s2 ->
+  negb del && has 2 (st_cnames s2) && has 1 (st_knames s2) && token_ok s2 = true ->
+  st_rk s2 = cur_desc s2 /\ st_kv s2 = cur_desc s2.
+Proof.
+  intros (B1 & B2 & B3 & R & P & J & K & T) Hr E.
+  apply andb_true_iff in E. destruct E as [E E4]. apply andb_true_iff in E. destruct E as [E E3].
+  apply andb_true_iff in E. destruct E as [_ E2].
+  unfold token_ok in E4. destruct (st_ref s2) as [[[id m] rp]|] eqn:F; [|discriminate].
+  apply andb_true_iff in E4. destruct E4 as [E4 E6]. apply andb_true_iff in E4. destruct E4 as [E4 E5].
+  apply Nat.eqb_eq in E4. apply eqb_prop in E5.
+  destruct (T id m rp E2 E3 eq_refl E4) as (T1 & T2 & T3).
+  destruct (R id m rp eq_refl) as [_ Jr].
+  assert (Jc : p_jit (cur_pos s2) = 0).
+  { unfold cur_pos. destruct (st_pos s2) eqn:Ps; [now apply P|reflexivity]. }
+  pose proof (close_eq _ _ Jc Jr E6) as Ep.
+  pose proof (K Hr E3) as Ks. unfold settings in Ks. simpl in Ks.
+  assert (st_kv s2 = cur_desc s2).
+  { destruct (st_kv s2) as [kp km kc kmm kmo kmt]. simpl in *. unfold cur_desc.
+    injection Ks as -> -> -> ->. subst. reflexivity. }
+  split; congruence.
 Qed.
 
 (* the rest of the call on a state satisfying the invariant *)
-Lemma finish_ok s2 del : Inv s2 ->
-  let '(s', r) := finish_call s2 del in
+Lemma finish_ok s2 del srk : Inv s2 ->
+  let '(s', r) := finish_call repaired s2 del srk in
   Inv s' /\ st_pos s' = st_pos s2 /\
   exists o, r = RField o /\ o_gmodel o = st_model s' /\ o_seed o = st_seed s' /\ o_post o = st_mtn s' /\
             (refreshed s' -> o_k o = cur_desc s' /\ o_v o = cur_desc s').
 Proof.
-  intros (B1 & B2 & I). unfold finish_call.
-  set (reuse := negb del && has 2 (st_cnames s2) && has 1 (st_knames s2)).
-  assert (R : refreshed s2 ->
-              (if reuse then st_rk s2 else cur_desc s2) = cur_desc s2 /\
-              (if reuse then st_kv s2 else cur_desc s2) = cur_desc s2).
-  { intros Hr. destruct reuse eqn:E; [|auto]. unfold reuse in E.
-    apply andb_true_iff in E. destruct E as [E E3]. apply andb_true_iff in E. destruct E as [_ E2].
-    apply I; auto. }
+  intros HI. pose proof HI as (B1 & B2 & B3 & R & P & J & K & T). unfold finish_call.
+  change (f_token repaired) with true. cbv iota.
+  set (reuse := negb del && has 2 (st_cnames s2) && has 1 (st_knames s2) && token_ok s2).
+  assert (RC : reuse = true -> refreshed s2 -> st_rk s2 = cur_desc s2 /\ st_kv s2 = cur_desc s2).
+  { intros E Hr. apply (reuse_current s2 del HI Hr E). }
+  assert (Jc : p_jit (cur_pos s2) = 0).
+  { unfold cur_pos. destruct (st_pos s2) eqn:Ps; [now apply P|reflexivity]. }
+  assert (H1 : reuse = true -> has 1 (st_knames s2) = true).
+  { intros E. unfold reuse in E. apply andb_true_iff in E. destruct E as [E _]. apply andb_true_iff in E. apply E. }
+  assert (H2 : reuse = true -> has 2 (st_cnames s2) = true).
+  { intros E. unfold reuse in E. apply andb_true_iff in E. destruct E as [E _]. apply andb_true_iff in E. destruct E as [E _].
+    apply andb_true_iff in E. apply E. }
   split; [|split; [reflexivity|]].
-  - unfold Inv. simpl. split; [exact B1|split; [exact B2|]]. intros Hr _ _. apply (R Hr).
+  - destruct reuse eqn:E; simpl.
+    + (* reuse: only names grow *)
+      unfold Inv, refreshed, cur_desc, cur_pos, settings. simpl.
+      split; [exact B1|split; [exact B2|split; [exact B3|split; [exact R|split; [exact P|split; [exact J|split]]]]]].
+      * intros Hr _. apply K; auto.
+      * intros id m rp _ _ F Eid. apply (T id m rp); auto.
+    + destruct srk; simpl.
+      * unfold Inv, refreshed, cur_desc, cur_pos, settings. simpl.
+        split; [lia|split; [lia|split; [lia|split; [|split; [exact P|split; [exact Jc|split]]]]]].
+        { intros id m rp F. injection F as <- <- <-. split; [lia|exact Jc]. }
+        { intros _ _. reflexivity. }
+        { intros id m rp _ _ F _. injection F as <- <- <-. repeat split. }
+      * unfold Inv, refreshed, cur_desc, cur_pos, settings. simpl.
+        split; [lia|split; [lia|split; [lia|split; [|split; [exact P|split; [exact Jc|split]]]]]].
+        { intros id m rp F. destruct (R id m rp F). split; [lia|assumption]. }
+        { intros _ _. reflexivity. }
+        { intros id m rp _ _ F Eid. destruct (R id m rp F). lia. }
   - eexists. split; [reflexivity|]. simpl. split; [reflexivity|split; [reflexivity|split; [reflexivity|]]].
-    intros Hr. apply (R Hr).
+    intros Hr. destruct reuse eqn:E; [|split; reflexivity].
+    assert (Hr2 : refreshed s2) by exact Hr.
+    destruct (RC eq_refl Hr2) as [A B]. rewrite A, B. split; reflexivity.
 Qed.
 
 Definition call_post (s' : St) (r : Res) : Prop :=
@@ -126,47 +157,80 @@ Definition call_post (s' : St) (r : Res) : Prop :=
   | _ => True
   end.
 
-Lemma call_spec s p sd :
-  Inv s -> clean_op s (Call p sd) -> call_post (fst (do_call s p sd)) (snd (do_call s p sd)).
+Lemma call_spec s p sd srk :
+  Inv s -> clean_op (Call p sd srk) -> call_post (fst (do_call repaired s p sd srk)) (snd (do_call repaired s p sd srk)).
 Proof.
-  intros HI Hc. rewrite do_call_unfold.
+  intros HI Hc. unfold do_call.
   set (s1 := match sd with Some x => with_seed s x | None => s end).
   assert (I1 : Inv s1) by (unfold s1; destruct sd; auto).
-  assert (P1 : st_pos s1 = st_pos s) by (unfold s1; destruct sd; reflexivity).
-  cbv zeta. destruct p as [[q m]|].
-  - assert (Hc1 : forall c, st_pos s1 = Some c -> pos_close c q = true -> c = q) by (rewrite P1; exact Hc).
-    pose proof (Inv_set_pos s1 q m Hc1 I1) as I2. pose proof (set_pos_fields s1 q m) as F.
-    destruct (do_set_pos s1 q m) as [s2 del]. simpl in I2, F. destruct F as (F1 & _).
-    pose proof (finish_ok s2 del I2) as FS.
-    destruct (finish_call s2 del) as [s' r]. destruct FS as (IS & PS & o & -> & G & SE & PO & KV).
+  destruct p as [[q m]|].
+  - assert (Hq : p_jit q = 0) by exact Hc.
+    pose proof (Inv_set_pos s1 q m Hq I1) as I2.
+    assert (F1 : st_pos (fst (do_set_pos s1 q m)) = Some q) by reflexivity.
+    destruct (do_set_pos s1 q m) as [s2 del]. simpl in I2, F1.
+    pose proof (finish_ok s2 del srk I2) as FS.
+    destruct (finish_call repaired s2 del srk) as [s' r]. destruct FS as (IS & PS & o & -> & G & SE & PO & KV).
     simpl. split; [exact IS|]. split; [exact G|split; [exact SE|split; [exact PO|split; [rewrite PS, F1; discriminate|exact KV]]]].
   - destruct (st_pos s1) as [c|] eqn:P.
-    + pose proof (finish_ok s1 false I1) as FS.
-      destruct (finish_call s1 false) as [s' r]. destruct FS as (IS & PS & o & -> & G & SE & PO & KV).
+    + pose proof (finish_ok s1 false srk I1) as FS.
+      destruct (finish_call repaired s1 false srk) as [s' r]. destruct FS as (IS & PS & o & -> & G & SE & PO & KV).
       simpl. split; [exact IS|]. split; [exact G|split; [exact SE|split; [exact PO|split; [rewrite PS, P; discriminate|exact KV]]]].
     + simpl. split; [exact I1|exact I].
 Qed.
 
-(* ---------- every operation of the repaired tree preserves the invariant *)
-Lemma Inv_step s op : Inv s -> clean_op s op -> Inv (fst (step true s op)).
+Lemma Inv_krige_call s p : Inv s -> clean_op (KrigeCall p) -> Inv (fst (do_krige_call s p)).
 Proof.
-  intros HI Hc. destruct op as [p sd|q m|k| | | | | |sd]; simpl.
-  - apply (call_spec s p sd HI Hc).
-  - apply Inv_set_pos; auto.
-  - destruct HI as (B1 & B2 & I). unfold Inv, do_set_cond, refreshed; simpl. repeat split; try lia; discriminate.
-  - destruct HI as (B1 & B2 & I). unfold Inv, do_model_inplace, refreshed; simpl. repeat split; try lia.
-  - destruct HI as (B1 & B2 & I). unfold Inv, do_set_model, do_set_cond, do_model_inplace, refreshed; simpl.
-    repeat split; try lia; discriminate.
-  - destruct HI as (B1 & B2 & I). unfold Inv, do_set_mtn, refreshed; simpl. repeat split; try lia; discriminate.
-  - destruct HI as (B1 & B2 & I). unfold Inv, do_set_mtn, refreshed; simpl. repeat split; try lia; discriminate.
-  - destruct HI as (B1 & B2 & I). unfold Inv, do_set_mtn, refreshed; simpl. repeat split; try lia; discriminate.
-  - exact HI.
+  intros HI Hc. unfold do_krige_call.
+  assert (X : forall s2, Inv s2 ->
+              Inv (mkSt (st_pos s2) (st_mesh s2) (st_cnames s2) (add_name 1 (add_name 0 (st_knames s2)))
+                        (st_rk s2) (cur_desc s2) (st_cond s2) (st_model s2) (st_matmodel s2) (st_mtn s2)
+                        (S (st_next s2)) (st_seed s2) (st_next s2) (st_ref s2))).
+  { intros s2 (B1 & B2 & B3 & R & P & J & K & T). unfold Inv, refreshed, cur_desc, cur_pos, settings. simpl.
+    split; [lia|split; [lia|split; [lia|split; [|split; [exact P|split; [|split]]]]]].
+    - intros id m rp F. destruct (R id m rp F). split; [lia|assumption].
+    - destruct (st_pos s2) eqn:Ps; [now apply P|reflexivity].
+    - intros _ _. reflexivity.
+    - intros id m rp _ _ F Eid. destruct (R id m rp F). lia. }
+  destruct p as [[q m]|].
+  - apply (X (krige_set_pos s q m)). apply Inv_krige_set_pos; [exact Hc|exact HI].
+  - destruct (st_pos s) eqn:Ps; [apply (X s)|]; exact HI.
 Qed.
 
-Lemma Inv_run ops : forall s, Inv s -> clean true s ops -> Inv (run true ops s).
+(* ---------- every operation of the current tree preserves the invariant *)
+Lemma Inv_step s op : Inv s -> clean_op op -> Inv (fst (step repaired s op)).
+Proof.
+  intros HI Hc. destruct op as [p sd srk|q m|k| | | | | |sd|q|p|q]; simpl.
+  - apply (call_spec s p sd srk HI Hc).
+  - apply Inv_set_pos; auto.
+  - destruct HI as (B1 & B2 & B3 & R & P & J & K & T). unfold Inv, do_set_cond, refreshed, settings; simpl.
+    repeat split; try lia; try discriminate; auto; try (intros; discriminate);
+      try (destruct (R _ _ _ ltac:(eassumption)); try lia; assumption).
+  - destruct HI as (B1 & B2 & B3 & R & P & J & K & T). unfold Inv, do_model_inplace, refreshed, settings; simpl.
+    repeat split; try lia; auto; try (destruct (R _ _ _ ltac:(eassumption)); try lia; assumption);
+      try (intros; eapply T; eauto; fail).
+  - destruct HI as (B1 & B2 & B3 & R & P & J & K & T).
+    unfold Inv, do_set_model, do_set_cond, do_model_inplace, refreshed, settings; simpl.
+    repeat split; try lia; try discriminate; auto; try (intros; discriminate);
+      try (destruct (R _ _ _ ltac:(eassumption)); try lia; assumption).
+  - destruct HI as (B1 & B2 & B3 & R & P & J & K & T). unfold Inv, do_set_mtn, refreshed, settings; simpl.
+    repeat split; try lia; try discriminate; auto; try (intros; discriminate);
+      try (destruct (R _ _ _ ltac:(eassumption)); try lia; assumption).
+  - destruct HI as (B1 & B2 & B3 & R & P & J & K & T). unfold Inv, do_set_mtn, refreshed, settings; simpl.
+    repeat split; try lia; try discriminate; auto; try (intros; discriminate);
+      try (destruct (R _ _ _ ltac:(eassumption)); try lia; assumption).
+  - destruct HI as (B1 & B2 & B3 & R & P & J & K & T). unfold Inv, do_set_mtn, refreshed, settings; simpl.
+    repeat split; try lia; try discriminate; auto; try (intros; discriminate);
+      try (destruct (R _ _ _ ltac:(eassumption)); try lia; assumption).
+  - exact HI.
+  - exact HI.
+  - apply Inv_krige_call; auto.
+  - apply Inv_with_pos; auto.
+Qed.
+
+Lemma Inv_run ops : forall s, Inv s -> clean ops -> Inv (run repaired ops s).
 Proof.
   induction ops as [|op r IH]; intros s HI Hc; simpl in *; [exact HI|].
-  destruct Hc as [H1 H2]. apply IH; [apply Inv_step; auto|exact H2].
+  inversion Hc; subst. apply IH; [apply Inv_step; auto|assumption].
 Qed.
 
 (* ---------- what a freshly built object returns *)
@@ -175,125 +239,186 @@ Lemma fresh_result_eq s :
   let d := mkKDesc (cur_pos s) (st_mesh s) (st_cond s) (st_model s) (st_model s) (st_mtn s) in
   RField (mkOut false d d (st_model s) (st_seed s) (st_mtn s)).
 Proof.
-  unfold fresh_result, step, do_call, fresh_of, do_set_pos. simpl. rewrite orb_true_r. simpl. reflexivity.
+  unfold fresh_result, step, do_call, fresh_of, do_set_pos, pos_changed, finish_call. simpl.
+  rewrite orb_true_r. simpl. reflexivity.
 Qed.
 
 (* ---------- cache coherence over all histories *)
-Theorem cache_coherent sd0 ops p sd :
-  clean true (init sd0) ops ->
-  let s := run true ops (init sd0) in
-  clean_op s (Call p sd) ->
-  forall s' o, step true s (Call p sd) = (s', RField o) -> refreshed s' ->
+Theorem cache_coherent sd0 ops p sd srk :
+  clean ops -> clean_op (Call p sd srk) ->
+  let s := run repaired ops (init sd0) in
+  forall s' o, step repaired s (Call p sd srk) = (s', RField o) -> refreshed s' ->
   same_field (RField o) (fresh_result s').
 Proof.
-  intros Hc s Hop s' o E Hr.
+  intros Hc Hop s s' o E Hr.
   assert (HI : Inv s) by (apply Inv_run; [apply Inv_init|exact Hc]).
-  pose proof (call_spec s p sd HI Hop) as C. simpl in E. rewrite E in C. simpl in C.
+  pose proof (call_spec s p sd srk HI Hop) as C. simpl in E. rewrite E in C. simpl in C.
   destruct C as (_ & G & SE & PO & _ & KV). destruct (KV Hr) as [K V].
   rewrite fresh_result_eq. simpl. unfold refreshed in Hr.
   rewrite K, V, G, SE, PO. unfold cur_desc. rewrite Hr. repeat split.
 Qed.
 
 (* whenever the reuse branch is taken in a refreshed state, the stored results are the current ones *)
-Theorem reuse_only_current sd0 ops p sd :
-  clean true (init sd0) ops ->
-  let s := run true ops (init sd0) in
-  clean_op s (Call p sd) ->
-  forall s' o, step true s (Call p sd) = (s', RField o) -> refreshed s' -> o_reuse o = true ->
+Theorem reuse_only_current sd0 ops p sd srk :
+  clean ops -> clean_op (Call p sd srk) ->
+  let s := run repaired ops (init sd0) in
+  forall s' o, step repaired s (Call p sd srk) = (s', RField o) -> refreshed s' -> o_reuse o = true ->
   o_k o = cur_desc s' /\ o_v o = cur_desc s'.
 Proof.
-  intros Hc s Hop s' o E Hr _.
+  intros Hc Hop s s' o E Hr _.
   assert (HI : Inv s) by (apply Inv_run; [apply Inv_init|exact Hc]).
-  pose proof (call_spec s p sd HI Hop) as C. simpl in E. rewrite E in C. simpl in C.
+  pose proof (call_spec s p sd srk HI Hop) as C. simpl in E. rewrite E in C. simpl in C.
   destruct C as (_ & _ & _ & _ & _ & KV). exact (KV Hr).
 Qed.
 
-(* ---------- legitimate reuse: same position (or none given), any new seed *)
-Lemma finish_names s2 del :
-  let s' := fst (finish_call s2 del) in has 2 (st_cnames s') = true /\ has 1 (st_knames s') = true.
+(* ---------- legitimate reuse: same position (or none given), any new seed, on every version of the tree *)
+Lemma token_ok_ext s t : st_pos s = st_pos t -> st_mesh s = st_mesh t -> st_kvid s = st_kvid t -> st_ref s = st_ref t ->
+  token_ok s = token_ok t.
+Proof. intros A B C D. unfold token_ok, cur_pos. now rewrite A, B, C, D. Qed.
+
+Lemma finish_facts fx sb del :
+  let s1 := fst (finish_call fx sb del true) in
+  has 2 (st_cnames s1) = true /\ has 1 (st_knames s1) = true /\
+  (if f_token fx then token_ok s1 else true) = true /\
+  st_pos s1 = st_pos sb /\ st_mesh s1 = st_mesh sb /\
+  exists o, snd (finish_call fx sb del true) = RField o /\ st_rk s1 = o_k o /\ st_kv s1 = o_v o.
 Proof.
-  unfold finish_call. cbn [fst st_cnames st_knames].
-  set (reuse := negb del && has 2 (st_cnames s2) && has 1 (st_knames s2)).
+  unfold finish_call. cbn [fst snd st_cnames st_knames st_pos st_mesh st_rk st_kv].
+  set (reuse := negb del && has 2 (st_cnames sb) && has 1 (st_knames sb) && (if f_token fx then token_ok sb else true)).
   destruct reuse eqn:E.
-  - unfold reuse in E. apply andb_true_iff in E. destruct E as [E E3]. apply andb_true_iff in E. destruct E as [_ E2].
-    split; repeat apply has_add_mono; auto.
-  - split; [do 2 apply has_add_mono|apply has_add_mono]; apply has_add_same.
+  - unfold reuse in E. apply andb_true_iff in E. destruct E as [E E4]. apply andb_true_iff in E. destruct E as [E E3].
+    apply andb_true_iff in E. destruct E as [_ E2]. simpl.
+    split; [do 2 apply has_add_mono; exact E2|]. split; [apply has_add_mono; exact E3|].
+    split; [|split; [reflexivity|split; [reflexivity|eexists; split; [reflexivity|split; reflexivity]]]].
+    destruct (f_token fx); [|reflexivity]. rewrite <- E4. apply token_ok_ext; reflexivity.
+  - simpl.
+    split; [do 2 apply has_add_mono; apply has_add_same|]. split; [apply has_add_mono; apply has_add_same|].
+    split; [|split; [reflexivity|split; [reflexivity|eexists; split; [reflexivity|split; reflexivity]]]].
+    destruct (f_token fx); [|reflexivity]. unfold token_ok, cur_pos. simpl.
+    rewrite Nat.eqb_refl, eqb_reflx. unfold pos_close. now rewrite Nat.eqb_refl.
+Qed.
+
+Lemma finish_reuse fx st srk :
+  has 2 (st_cnames st) = true -> has 1 (st_knames st) = true -> (if f_token fx then token_ok st else true) = true ->
+  exists s2 o2, finish_call fx st false srk = (s2, RField o2) /\ o_reuse o2 = true /\ o_k o2 = st_rk st /\ o_v o2 = st_kv st.
+Proof.
+  intros H2 H1 HT. unfold finish_call. rewrite H2, H1, HT. simpl. eexists _, _. split; [reflexivity|]. simpl. auto.
 Qed.
 
 Theorem reuse_when_unchanged fx s p sd s1 o1 :
-  step fx s (Call p sd) = (s1, RField o1) ->
-  forall q sd2, (q = None \/ exists c, q = Some (c, st_mesh s1) /\ pos_close (cur_pos s1) c = true) ->
-  exists s2 o2, step fx s1 (Call q sd2) = (s2, RField o2) /\ o_reuse o2 = true /\ o_k o2 = o_k o1 /\ o_v o2 = o_v o1.
+  step fx s (Call p sd true) = (s1, RField o1) ->
+  forall q sd2 srk, (q = None \/ exists c, q = Some (c, st_mesh s1) /\ pos_close (cur_pos s1) c = true) ->
+  exists s2 o2, step fx s1 (Call q sd2 srk) = (s2, RField o2) /\ o_reuse o2 = true /\ o_k o2 = o_k o1 /\ o_v o2 = o_v o1.
 Proof.
-  simpl. rewrite do_call_unfold. cbv zeta.
+  simpl. unfold do_call at 1.
   set (sa := match sd with Some x => with_seed s x | None => s end).
-  intros E q sd2 Hq.
-  assert (X : exists sb del, finish_call sb del = (s1, RField o1) /\ st_pos sb <> None).
+  intros E q sd2 srk Hq.
+  assert (X : exists sb del, finish_call fx sb del true = (s1, RField o1) /\ st_pos sb <> None).
   { destruct p as [[c m]|].
-    - pose proof (set_pos_fields sa c m) as F. destruct (do_set_pos sa c m) as [sb del]. simpl in F.
-      exists sb, del. split; [exact E|]. destruct F as (F1 & _). rewrite F1. discriminate.
+    - assert (F1 : st_pos (fst (do_set_pos sa c m)) = Some c) by reflexivity.
+      destruct (do_set_pos sa c m) as [sb del]. simpl in F1.
+      exists sb, del. split; [exact E|]. rewrite F1. discriminate.
     - destruct (st_pos sa) eqn:P; [|discriminate]. exists sa, false. split; [exact E|]. rewrite P. discriminate. }
   destruct X as (sb & del & F & Pb).
-  pose proof (finish_names sb del) as N. rewrite F in N. simpl in N. destruct N as [N2 N1].
-  assert (P1 : st_pos s1 = st_pos sb) by (unfold finish_call in F; injection F as <- _; reflexivity).
-  assert (K1 : st_rk s1 = o_k o1 /\ st_kv s1 = o_v o1).
-  { unfold finish_call in F. injection F as <- <-. simpl. auto. }
-  rewrite do_call_unfold. cbv zeta.
+  pose proof (finish_facts fx sb del) as N. rewrite F in N. cbn [fst snd] in N.
+  destruct N as (N2 & N1 & TK & P1 & M1 & o & Eo & K1 & K2). injection Eo as <-.
+  rewrite <- K1, <- K2.
+  unfold do_call.
   set (sc := match sd2 with Some x => with_seed s1 x | None => s1 end).
   assert (C : st_pos sc = st_pos s1 /\ st_mesh sc = st_mesh s1 /\ st_cnames sc = st_cnames s1 /\
-              st_knames sc = st_knames s1 /\ st_rk sc = st_rk s1 /\ st_kv sc = st_kv s1)
+              st_knames sc = st_knames s1 /\ st_rk sc = st_rk s1 /\ st_kv sc = st_kv s1 /\
+              st_kvid sc = st_kvid s1 /\ st_ref sc = st_ref s1)
     by (unfold sc; destruct sd2; simpl; repeat split).
-  destruct C as (C1 & C2 & C3 & C4 & C5 & C6).
+  destruct C as (C1 & C2 & C3 & C4 & C5 & C6 & C7 & C8).
   destruct Hq as [->|(c & -> & Hcl)].
   - rewrite C1, P1. destruct (st_pos sb) eqn:Pb'; [|contradiction].
-    unfold finish_call. rewrite C3, C4, N2, N1. simpl. eexists _, _. split; [reflexivity|].
-    simpl. rewrite C5, C6. destruct K1. auto.
-  - unfold do_set_pos. rewrite C1, C2, eqb_reflx. simpl.
-    unfold cur_pos in Hcl. rewrite P1 in *. destruct (st_pos sb) as [cb|] eqn:Pb'; [|contradiction].
-    rewrite Hcl. simpl. unfold finish_call. simpl. rewrite C3, C4, N2, N1. simpl.
-    eexists _, _. split; [reflexivity|]. simpl. rewrite C5, C6. destruct K1. auto.
+    rewrite <- C5, <- C6. apply finish_reuse; [now rewrite C3|now rewrite C4|].
+    destruct (f_token fx); [|reflexivity]. rewrite <- TK. apply token_ok_ext; auto.
+  - assert (D : pos_changed sc c (st_mesh s1) = false).
+    { unfold pos_changed. rewrite C1, C2, eqb_reflx. unfold cur_pos in Hcl.
+      destruct (st_pos s1); [now rewrite Hcl|]. rewrite P1 in Pb. contradiction. }
+    unfold do_set_pos. rewrite D.
+    match goal with |- context [finish_call fx ?st false srk] => set (sd_ := st) end.
+    rewrite <- C5, <- C6. change (st_rk sc) with (st_rk sd_). change (st_kv sc) with (st_kv sd_).
+    apply finish_reuse; [simpl; now rewrite C3|simpl; now rewrite C4|].
+    destruct (f_token fx); [|reflexivity]. unfold token_ok, cur_pos in *. simpl. rewrite C7, C8.
+    destruct (st_ref s1) as [[[id m] rp]|]; [|discriminate].
+    apply andb_true_iff in TK. destruct TK as [TK T3]. rewrite TK. simpl.
+    destruct (st_pos s1) as [c1|]; [|rewrite P1 in Pb; contradiction].
+    unfold pos_close in *. apply Nat.eqb_eq in Hcl, T3. apply Nat.eqb_eq. congruence.
 Qed.
 
-(* ---------- the pinned behaviour (before the repair) is refuted *)
+(* ---------- the hypothesis [refreshed] of cache_coherent: the documented refresh (set_condition, with or without
+   arguments) and a model re-assignment always establish it; only an in-place model change can destroy it *)
+Lemma finish_refreshed fx s2 del srk : refreshed s2 -> refreshed (fst (finish_call fx s2 del srk)).
+Proof. intros H. exact H. Qed.
+
+Theorem refreshed_characterised (s : St) :
+  (forall k, refreshed (fst (step repaired s (SetCond k)))) /\
+  refreshed (fst (step repaired s SetModel)) /\
+  (forall op, refreshed s -> op <> ModelInplace -> refreshed (fst (step repaired s op))).
+Proof.
+  split; [intros k; reflexivity|]. split; [reflexivity|].
+  intros op Hr Hop. destruct op as [p sd srk|q m|k| | | | | |sd|q|p|q]; try reflexivity; try exact Hr; try contradiction.
+  - simpl. unfold do_call.
+    set (s1 := match sd with Some x => with_seed s x | None => s end).
+    assert (R1 : refreshed s1) by (unfold s1; destruct sd; exact Hr).
+    destruct p as [[q m]|].
+    + assert (R2 : refreshed (fst (do_set_pos s1 q m))) by exact R1.
+      destruct (do_set_pos s1 q m) as [s2 del]. apply finish_refreshed. exact R2.
+    + destruct (st_pos s1); [apply finish_refreshed|]; exact R1.
+  - simpl. unfold do_krige_call. destruct p as [[q m]|]; [exact Hr|]. destruct (st_pos s); exact Hr.
+Qed.
+
+(* ---------- earlier versions of the tree are refuted *)
 Definition P0 : Pos := mkPos 0 0.
 Definition P0j : Pos := mkPos 0 1.     (* inside the allclose window of P0 *)
 Definition P1 : Pos := mkPos 1 0.
 
-Definition stale (fx : bool) (sd0 : nat) (ops : list Op) (last : Op) : Prop :=
-  clean fx (init sd0) ops /\ clean_op (run fx ops (init sd0)) last /\
+Definition stale (fx : Fix) (sd0 : nat) (ops : list Op) (last : Op) : Prop :=
+  clean ops /\ clean_op last /\
   exists s' o, step fx (run fx ops (init sd0)) last = (s', RField o) /\ refreshed s' /\
                ~ same_field (RField o) (fresh_result s').
 
 Ltac stale_witness :=
-  unfold stale; split; [vm_compute; repeat split; intros; congruence|];
-  split; [vm_compute; repeat split; intros; congruence|];
+  unfold stale; split; [repeat constructor|]; split; [exact I || reflexivity|];
   eexists _, _; split; [vm_compute; reflexivity|]; split; [vm_compute; reflexivity|];
   vm_compute; intros (H & _); discriminate H.
 
-Definition hist_set_condition := [Call (Some (P0, false)) None; SetCond NewVals].
-Definition hist_mean := [Call (Some (P0, false)) None; SetMean].
-Definition hist_model := [Call (Some (P0, false)) None; SetModel; SetCond Refresh].
-Definition hist_inplace_refresh := [Call (Some (P0, false)) None; ModelInplace; SetCond Refresh].
+Definition c0 : Op := Call (Some (P0, false)) None true.
+Definition hist_set_condition := [c0; SetCond NewVals].
+Definition hist_mean := [c0; SetMean].
+Definition hist_model := [c0; SetModel; SetCond Refresh].
+Definition hist_inplace_refresh := [c0; ModelInplace; SetCond Refresh].
 
-Theorem pinned_refuted_set_condition : stale false 7 hist_set_condition (Call None None).
+(* the pinned tree (before 2a36b2f) *)
+Theorem pinned_refuted_set_condition : stale pinned 7 hist_set_condition (Call None None true).
 Proof. stale_witness. Qed.
-Theorem pinned_refuted_mean : stale false 7 hist_mean (Call None None).
+Theorem pinned_refuted_mean : stale pinned 7 hist_mean (Call None None true).
 Proof. stale_witness. Qed.
-Theorem pinned_refuted_model : stale false 7 hist_model (Call None (Some 3)).
+Theorem pinned_refuted_model : stale pinned 7 hist_model (Call None (Some 3) true).
 Proof. stale_witness. Qed.
-Theorem pinned_refuted_inplace_refresh : stale false 7 hist_inplace_refresh (Call None None).
+Theorem pinned_refuted_inplace_refresh : stale pinned 7 hist_inplace_refresh (Call None None true).
 Proof. stale_witness. Qed.
 
-(* the same histories on the repaired transition function (regression cases) *)
-Lemma repaired_witnesses :
-  ~ stale true 7 hist_set_condition (Call None None) /\ ~ stale true 7 hist_mean (Call None None).
-Proof.
-  split; intros (_ & _ & s' & o & E & _ & N); vm_compute in E; injection E as <- <-; apply N; vm_compute; repeat split.
-Qed.
+(* the tree after 2a36b2f only: aliased positions, direct kriging call, pos assignment, raw_krige not stored *)
+Definition hist_mutate := [c0; MutatePos P1].
+Definition hist_direct_krige := [c0; KrigeCall (Some (P1, false))].
+Definition hist_assign_pos := [c0; AssignPos P1].
+Definition hist_no_store := [c0; SetCond NewVals; Call None None false].
+
+Theorem first_repair_refuted_mutate_pos : stale first_repair 7 hist_mutate (Call (Some (P1, false)) None true).
+Proof. stale_witness. Qed.
+Theorem first_repair_refuted_direct_krige : stale first_repair 7 hist_direct_krige (Call None None true).
+Proof. stale_witness. Qed.
+Theorem first_repair_refuted_assign_pos : stale first_repair 7 hist_assign_pos (Call None None true).
+Proof. stale_witness. Qed.
+Theorem first_repair_refuted_no_store : stale first_repair 7 hist_no_store (Call None None true).
+Proof. stale_witness. Qed.
 
 (* ---------- the np.allclose window: a position change below the tolerance keeps the stored results *)
 Theorem window_refuted :
-  exists s' o, step true (run true [Call (Some (P0, false)) None] (init 7)) (Call (Some (P0j, false)) None) = (s', RField o)
+  exists s' o, step repaired (run repaired [c0] (init 7)) (Call (Some (P0j, false)) None true) = (s', RField o)
                /\ refreshed s' /\ o_reuse o = true /\ ~ same_field (RField o) (fresh_result s').
 Proof.
   eexists _, _. split; [vm_compute; reflexivity|]. split; [vm_compute; reflexivity|]. split; [reflexivity|].
@@ -302,29 +427,7 @@ Qed.
 
 (* the hypotheses of cache_coherent are satisfiable, by a history that exercises every operation *)
 Example clean_example :
-  clean true (init 1) [Call (Some (P0, false)) None; Call None (Some 5); SetCond NewVals; Call (Some (P0, false)) None;
-                       SetPos P1 true; ModelInplace; SetCond Refresh; SetModel; SetMean; SetTrend; SetNorm; SetGen 4;
-                       Call (Some (P1, true)) (Some 9)].
-Proof.
-  vm_compute. repeat split; intros c E H;
-    first [discriminate E | injection E as <-; first [reflexivity | vm_compute in H; discriminate H]].
-Qed.
-
-(* ---------- the hypothesis [refreshed] of cache_coherent: the documented refresh (set_condition, with or without
-   arguments) and a model re-assignment always establish it; only an in-place model change can destroy it *)
-Theorem refreshed_characterised (s : St) :
-  (forall k, refreshed (fst (step true s (SetCond k)))) /\
-  refreshed (fst (step true s SetModel)) /\
-  (forall op, refreshed s -> op <> ModelInplace -> refreshed (fst (step true s op))).
-Proof.
-  split; [intros k; reflexivity|]. split; [reflexivity|].
-  intros op Hr Hop. destruct op as [p sd|q m|k| | | | | |sd]; try reflexivity; try exact Hr; try contradiction.
-  simpl. rewrite do_call_unfold. cbv zeta.
-    set (s1 := match sd with Some x => with_seed s x | None => s end).
-    assert (R1 : refreshed s1) by (unfold s1; destruct sd; exact Hr).
-  destruct p as [[q m]|].
-  - pose proof (set_pos_fields s1 q m) as F. destruct (do_set_pos s1 q m) as [s2 del]. simpl in F.
-    destruct F as (_ & _ & _ & _ & _ & F6 & F7 & _). unfold finish_call, refreshed. simpl.
-    rewrite F6, F7. exact R1.
-  - destruct (st_pos s1); [unfold finish_call, refreshed; simpl|]; exact R1.
-Qed.
+  clean [c0; Call None (Some 5) false; SetCond NewVals; Call (Some (P0, false)) None true;
+         SetPos P1 true; ModelInplace; SetCond Refresh; SetModel; SetMean; SetTrend; SetNorm; SetGen 4;
+         MutatePos P0; KrigeCall (Some (P0, true)); KrigeCall None; AssignPos P1; Call (Some (P1, true)) (Some 9) true].
+Proof. repeat constructor. Qed.
